@@ -1379,7 +1379,9 @@ func (s *Scorch) DropFileWriterIDs(ids map[string]struct{}) error {
 	s.rootLock.Lock()
 	// create a done channel to ensure success of merge
 	ctx := context.Background()
-	doneCh := make(chan error)
+	// buffered so that the merger's reply never blocks, even if this call
+	// has given up waiting because the index was closed
+	doneCh := make(chan error, 1)
 	ctx = context.WithValue(ctx, mergeDoneKey, doneCh)
 
 	// PARTIAL ROLLBACK WILL NOT BE SUPPORTED DURING THIS OPERATION
@@ -1465,15 +1467,25 @@ func (s *Scorch) DropFileWriterIDs(ids map[string]struct{}) error {
 	// any races
 	ctx = context.WithValue(ctx, mergePlanFuncKey, mergePlanner)
 
-	// trigger the merge with the force merge plan
-	s.forceMergeRequestCh <- &mergerCtrl{
-		ctx: ctx,
-	}
 	s.rootLock.Unlock()
 
+	// trigger the merge with the force merge plan; rootLock must not be held
+	// while blocking on the request channel, the merger and the introducer
+	// need it to make progress and drain the channel
+	select {
+	case s.forceMergeRequestCh <- &mergerCtrl{
+		ctx: ctx,
+	}:
+	case <-s.closeCh:
+		return segment.ErrClosed
+	}
+
 	// blockingly wait for merge to complete
-	err = <-doneCh
-	close(doneCh)
+	select {
+	case err = <-doneCh:
+	case <-s.closeCh:
+		return segment.ErrClosed
+	}
 	if err != nil {
 		return err
 	}
